@@ -304,6 +304,13 @@ def run(ctx):
         p = func_params(h)[1]
         writes = [c for c in calls_in(h) if isinstance(c.func, ast.Attribute) and c.func.attr in ("write", "_write") and norm(c.func.value) == "self"
                   and [norm(a) for a in c.args] == [p]]
+        if not writes:
+            # the private line writer folded into the handler: self.fp.write(<derived from self.packer.pack(p)>)
+            packed = {norm(st.targets[0]) for st in walk_no_nested(h) if isinstance(st, ast.Assign) and len(st.targets) == 1 and isinstance(st.value, ast.Call)
+                      and norm(st.value.func) == "self.packer.pack" and [norm(a) for a in st.value.args] == [p]}
+            writes = [c for c in calls_in(h) if isinstance(c.func, ast.Attribute) and c.func.attr == "write" and norm(c.func.value) == "self.fp" and c.args
+                      and any((isinstance(n, ast.Name) and n.id in packed) or (isinstance(n, ast.Call) and norm(n.func) == "self.packer.pack" and [norm(a) for a in n.args] == [p])
+                              for n in ast.walk(c.args[0]))]
         ctx.check(bool(writes) and not [n for n in ast.walk(h) if isinstance(n, (ast.If, ast.Try, ast.Return))], "R3.3", f"{wname}.{hname}:writes-descriptor",
                   "the handler does not unconditionally write the descriptor it receives", h, f"{norm(writes[0]) if writes else ''}")
         if wname == "JsonfileWriter":
@@ -314,7 +321,9 @@ def run(ctx):
                       "registered whenever descriptors are enabled")
     ctx.floor("R3.3", "writers subscribing to on_descriptor", handlers, 2)
     # writer: pack (may emit descriptors) precedes the record's own frame
-    for wq, meth in (("flow.record.stream.RecordStreamWriter", "write"), ("flow.record.adapter.jsonfile.JsonfileWriter", "_write")):
+    jmeths = prog.methods_of(ctx.anchor_cls("flow.record.adapter.jsonfile.JsonfileWriter"))
+    jwrite = "_write" if "_write" in jmeths else "write"  # the private line writer may have been folded into write()
+    for wq, meth in (("flow.record.stream.RecordStreamWriter", "write"), ("flow.record.adapter.jsonfile.JsonfileWriter", jwrite)):
         fn = ctx.anchor_func(f"{wq}.{meth}")
         wcfg = CFG(fn)
         packs = [c for c in calls_in(fn) if norm(c.func) == "self.packer.pack"]
